@@ -342,7 +342,7 @@ def rule_hygiene(ck, repo, R, pid, extra_modules=()):
     # H8-H12 (sa/r_lints.py): tri-state ladders, in-place change of an argument, substring membership, read of a slice that was just cut off,
     # swallowing try around a loop
     from . import r_lints as L
-    counts = {'tristate ladders': 0, 'argument mutation sites': 0, 'slice truncations': 0, 'try around loop': 0}
+    counts = {'tristate ladders': 0, 'argument mutation sites': 0, 'slice truncations': 0, 'try around loop': 0, 'optional positional arguments': 0}
     for m in mods:
         classes = {id(f_): c for c in ast.walk(m.tree) if isinstance(c, ast.ClassDef) for f_ in c.body if isinstance(f_, ast.FunctionDef)}
         for qual, fn in _functions(m.tree):
@@ -351,6 +351,7 @@ def rule_hygiene(ck, repo, R, pid, extra_modules=()):
             L.lint_substring_membership(ck, R, m, qual, fn, classes.get(id(fn)))
             counts['slice truncations'] += L.lint_slice_after_truncation(ck, R, m, qual, fn)
             counts['try around loop'] += L.lint_swallowing_try_around_loop(ck, R, m, qual, fn)
+            counts['optional positional arguments'] += L.lint_argument_parameter_affinity(ck, R, repo, m, qual, fn)
     counts['view signatures'] = 0
     for m in mods:
         counts['view signatures'] += L.lint_view_signature(ck, R, m, None)
